@@ -322,6 +322,20 @@ def run(ctx):
                     ctx.violation('moinmoin-raised', case, repr(e)[:200], 'a string', {'exception': type(e).__name__})
             if g.hot: ctx.nt((kind, len(g.tokens), i))
             ctx.bump('kind=' + kind)
+        # a note inside the body of a note: the schema allows it (no office suite offers it)
+        nested = ('<text:p>w1q<text:note text:id="f1" text:note-class="footnote"><text:note-citation>1</text:note-citation><text:note-body><text:p>w2q'
+                  '<text:note text:id="f2" text:note-class="endnote"><text:note-citation>i</text:note-citation><text:note-body><text:p>w3q</text:p></text:note-body></text:note>'
+                  'w4q</text:p></text:note-body></text:note>w5q</text:p>')
+        fn = os.path.join(tmpdir, 'nested.odt'); open(fn, 'wb').write(P.simple_package(nested))
+        for css in (True, False):
+            ctx.oracle_cases += 1
+            case = {'directed': 'a note inside a note', 'content.xml': nested, 'css': css}
+            try:
+                have = xhtml_tokens(parse_any(ODF2XHTML(generate_css=css, embedable=False).odf2xhtml(fn)))
+                lost = [w for w in ('w1q', 'w2q', 'w3q', 'w4q', 'w5q') if w not in have]
+                if lost: ctx.violation('xhtml-text-lost', case, lost, 'every word of the document', {'aspect': 'complete', 'feature': 'note-inside-note'})
+            except Exception as e:
+                ctx.violation('xhtml-raised', case, repr(e)[:200], 'a string', {'exception': type(e).__name__, 'feature': 'note-inside-note'})
     finally:
         import shutil; shutil.rmtree(tmpdir, ignore_errors=True)
 
